@@ -25,7 +25,7 @@
 (*   too_short       "4"   fewer characters than min  (minus sign and decimal    *)
 (*   too_long        "5"   more characters than max    point of numbers are not  *)
 (*                                                     counted)                  *)
-(*   control_char    "6"   a control character (code point < 32, or 127..159)    *)
+(*   control_char    "6"   one of the 23 control characters X12 names             *)
 (*   trailing_blank  "6"   text types: ends in a blank although the value        *)
 (*                         without its trailing blanks already has min length    *)
 (*   code            "7"   code list declared and the value is in neither the    *)
@@ -58,7 +58,9 @@ If(c, e) == IF c THEN {e} ELSE {}
 CBlank == 32
 CMinus == 45
 CPoint == 46
-IsCtrl(c) == c < 32 \/ c \in 127..159
+(* the control characters X12 names in its basic (BEL HT LF VT FF CR FS GS RS US) and extended (SOH..ACK, DC1..ETB)     *)
+(* character sets; any other code point outside the character sets is simply not a character of the data type ("type") *)
+IsCtrl(c) == c \in {7, 9, 10, 11, 12, 13, 28, 29, 30, 31} \cup (1..6) \cup (17..23)
 
 NumericType(t) == t = "R" \/ t \in NTypes
 TextType(t) == t \in {"AN", "ID"}
@@ -125,8 +127,19 @@ Clause(B, O) ==
   ELSE IF (O.res = "true") # (rep = {}) THEN "flag"
   ELSE ""
 
-(* the codes an implementation may report for B: every non-empty subset of the implied set *)
-Admissible(B, rep) == IF B = {} THEN rep = {} ELSE rep # {} /\ rep \subseteq Implied(B)
+(* Completeness.  The statement asks for EXACTLY the implied set.  The one precedence the code documents ("control       *)
+(* character errors trump all", the fixed order named in the property's anchors: presence/usage, length, control          *)
+(* characters, then the rest) is admitted: a value holding a control character must show the control-character code and    *)
+(* its length errors, and may keep silent about the constraints checked after it; without a control character every        *)
+(* implied code must be reported.                                                                                         *)
+Complete(B, rep) ==
+  IF \E b \in B : b[1] = "composite_value" THEN "6" \in rep          \* a composite value is not looked at any further
+  ELSE IF \E b \in B : b[1] = "control_char"
+  THEN "6" \in rep /\ {b[2] : b \in {x \in B : x[1] \in {"too_short", "too_long"}}} \subseteq rep
+  ELSE rep = Implied(B)
+
+(* the codes an implementation may report for B: the implied set, less what a composite value or a control character masks *)
+Admissible(B, rep) == IF B = {} THEN rep = {} ELSE rep # {} /\ rep \subseteq Implied(B) /\ Complete(B, rep)
 
 (* ------------------------------------------------------- facts (checked once) -- *)
 DefSanityEV ==
